@@ -2,6 +2,7 @@ import SgModel.Lemmas.SnapImport
 import SgModel.Lemmas.SnapIso
 import SgModel.Lemmas.SnapRollback
 import SgModel.Lemmas.SnapJsonUndoStep
+import SgModel.Lemmas.SnapLidxFinal
 /-!
 # C13 — a failed snapshot import leaves the store unchanged
 
@@ -30,14 +31,20 @@ and deleting the created nodes removes the rest, so the node list (labels, row a
 *exactly* what they were.  `C13_failed_import_without_dedup_restores_partial` is the earlier
 special case without dedup keys, kept for its weaker well-formedness assumption.
 
-What remains unproved (hence `_partial`): the label-index clause `lidxOk st'` of the failure
-case.  After a rollback the index equals the original one only up to the order of its entries
-(`lidxRemove ∘ lidxInsert` is the identity only extensionally: an entry that was emptied and
-re-created moves to the end), so it needs an extensional invariant on `lookup l st.lidx` as a
-set rather than the list equality used for nodes and relationships.  That clause stays
-established differentially (the executable specification `specImport`, which includes
-`lidxOk`, is evaluated on the real store for every explored truncation / corruption) and on
-the concrete witnesses below.
+The label-index clause is proved too (`C13_failed_import_label_index_exact`,
+`C13_failed_import_restores_logical_graph`, `C13_failed_import_satisfies_spec`; helpers
+`Lemmas/SnapLidxUndo.lean`, `SnapLidxExact.lean`, `SnapLidxImport.lean`, `SnapLidxFinal.lean`).
+After a rollback the index equals the original one only up to the order of its entries (an
+entry that was emptied and re-created moves to the end), so the invariant is extensional:
+`LidxExact st` = under every label the index lists exactly the ids of the nodes carrying it
+(`lk l st.lidx` as a set) **and** the index is well formed (a label is a key at most once, an
+id is listed at most once per label — true by construction of the real
+`HashMap<Label, HashSet<NodeId>>`; the list model is finer than the implementation, and the
+executable `lidxOk` alone does not exclude a shadowed duplicate key).  `LidxExact` is kept by
+every line of an import, by every `undo1` and by every `deleteNode`, and implies `lidxOk`.
+So the failure half holds in full under `StoreWF2 st ∧ LidxExact st`; the theorems that carry
+`_partial` below are the earlier, weaker forms (no label-index clause), kept because they need
+no hypothesis on the index.
 -/
 namespace SgModel.SnapJson
 
@@ -94,6 +101,36 @@ theorem C13_failed_import_restores_logical_graph_partial (ks hdr : List Str) (st
   obtain ⟨a, b, c⟩ := failed_import_restores ks hdr st lines hwf hfail
   unfold logical nodeIds
   rw [a, b, c]
+
+/-- **Label-index clause of the failure half**: if the index was exact before
+(`LidxExact st`), then after a failed import — any dedup keys, any line sequence — it is exact
+again, extensionally and as the executable `lidxOk`. -/
+theorem C13_failed_import_label_index_exact (ks hdr : List Str) (st : St) (lines : List Line)
+    (hwf : StoreWF2 st) (hix : LidxExact st)
+    (hfail : (importLines false true ks hdr st lines).2 = none) :
+    LidxExact (importLines false true ks hdr st lines).1
+    ∧ lidxOk (importLines false true ks hdr st lines).1 = true :=
+  failed_import_lidx ks hdr st lines hwf hix hfail
+
+/-- **The failure half of C13, in full**: for every well-formed store with an exact label
+index, every list of dedup keys and header labels and every line sequence, a failed import
+leaves the same logical graph and an exact label index — exactly the `(st', none)` branch of
+the statement in the header. -/
+theorem C13_failed_import_restores_logical_graph (ks hdr : List Str) (st : St) (lines : List Line)
+    (hwf : StoreWF2 st) (hix : LidxExact st)
+    (hfail : (importLines false true ks hdr st lines).2 = none) :
+    logical (importLines false true ks hdr st lines).1 = logical st
+    ∧ lidxOk (importLines false true ks hdr st lines).1 = true :=
+  ⟨C13_failed_import_restores_logical_graph_partial ks hdr st lines hwf hfail,
+    (failed_import_lidx ks hdr st lines hwf hix hfail).2⟩
+
+/-- … i.e. the model satisfies the executable specification the harness evaluates on the real
+store after an `Err` (`specImport … false post`). -/
+theorem C13_failed_import_satisfies_spec (ks hdr : List Str) (st : St) (lines : List Line)
+    (hwf : StoreWF2 st) (hix : LidxExact st)
+    (hfail : (importLines false true ks hdr st lines).2 = none) :
+    specImport ks hdr st lines false (importLines false true ks hdr st lines).1 = true :=
+  failed_import_spec ks hdr st lines hwf hix hfail
 
 /-- The journal entries a merge pushes are exactly the inverse of what it changed: undoing
 them (newest first) on the node list after the merge gives the node list before it
